@@ -55,7 +55,7 @@ PROPS = {
             "relevant": {"fit": [3], "cluster": [4]}},
     "C05": {"modules": [P + "C05"], "streams": ["heap"]},
     "C06": {"modules": [P + "C06", P + "C06b", P + "C06Models"], "streams": ["dist"]},
-    "C07": {"modules": [P + "C07"], "streams": ["dist", "fit", "select"], "relevant": {"dist": None}},
+    "C07": {"modules": [P + "C07"], "streams": ["dist", "fit", "select", "knn"], "relevant": {"dist": None}},
     "C09": {"modules": [P + "C09"], "streams": ["fit", "semi", "knnpred"], "relevant": {"predict": [0], "knnq": None}},
     "C15": {"modules": [P + "C15"], "streams": ["semi"], "relevant": {"fit": [0, 1, 2, 3, 4, 5, 6], "lawfit": None}},
     "C16": {"modules": [P + "C16", P + "C16Cut", P + "C16Pipeline"], "streams": ["select"], "relevant": {"selmax": None, "selcut": None, "ncut": None, "unsfit": None, "knnfit": None}},
